@@ -89,6 +89,8 @@ type SpecFile struct {
 	Opaque    map[string]string
 	SortAlias map[string]string
 	Assumed   []string // free-text list of assumptions stated in the file
+	GhostFields   []GhostParam
+	GhostFieldPkg []string
 	GhostVars   []GhostParam
 	GhostVarPkg []string
 }
@@ -96,7 +98,7 @@ type SpecFile struct {
 var clauseKw = map[string]bool{
 	"func": true, "requires": true, "ensures": true, "assigns": true, "loop": true, "decreases": true,
 	"ghost": true, "after": true, "before": true, "uf": true, "lemma": true, "axiom": true, "trusted": true, "pure": true, "opaque": true,
-	"sort": true, "ghostvar": true, "free": true, "extern": true, "assume-note": true, "end": true,
+	"sort": true, "ghostvar": true, "ghostfield": true, "free": true, "extern": true, "assume-note": true, "end": true,
 }
 
 var labelRe = regexp.MustCompile(`^\[([A-Za-z0-9_.\-]+)\]\s*`)
@@ -338,6 +340,13 @@ func ParseSpecFile(path, pkgName, pkgPath string, sf *SpecFile) error {
 				return err
 			}
 			cur.After = append(cur.After, &AfterClause{Match: match, Before: kw == "before", Var: strings.TrimSpace(tail[:eqi]), Expr: e, Text: tail, Line: rc.line})
+		case "ghostfield":
+			// ghostfield Struct.name Type
+			f2 := strings.Fields(rest)
+			if len(f2) >= 2 {
+				sf.GhostFields = append(sf.GhostFields, GhostParam{Name: f2[0], Type: strings.TrimSpace(strings.TrimPrefix(rest, f2[0]))})
+				sf.GhostFieldPkg = append(sf.GhostFieldPkg, pkgPath)
+			}
 		case "ghostvar":
 			// ghostvar name Type   — a global ghost variable (a heap component of its own)
 			f2 := strings.Fields(rest)
